@@ -113,12 +113,14 @@ def main():
     items = []
     max_order = 2 if quick else 3
     for variant, spaces in SPACES.items():
-        for part in (("mp",) if quick else ("mp", "re")):
-            for singles in ((False,) if quick else (False, True)):
+        for part in ("mp", "re"):
+            for singles in (False, True):
                 for sp1 in spaces:
                     for sp2 in spaces:
                         for n in range(max_order + 1):
                             big = len(sp1) + len(sp2)
+                            if quick and part == "re" and n > 1:
+                                continue
                             if quick and (big > 6 or (big == 6 and n > 1 and len(sp1) == len(sp2) and variant in ("dip", "dea"))):
                                 continue
                             if not quick and big >= 8 and n > 2:
@@ -164,7 +166,7 @@ def main():
         "variants": list(SPACES), "orders": f"<= {max_order}",
         "classes": "the two lowest classes of each variant, all pairs" + (" (quick: pairs with <= 6 indices)" if quick else ""),
         "models": "n_o, n_v = max(2, number of h / p indices of the pair)" + ("" if quick else "; 3o3v for pairs with <= 4 indices"),
-        "partitioning": "mp" if quick else "mp, re; with/without first-order singles",
+        "partitioning": "mp, re (quick: re up to order 1); with/without first-order singles",
         "z3_timeout_ms": TIMEOUT}
     run.cov["rule"] = "one case per (variant, class pair, order, model); non-trivial = the derived expression is non-empty"
     run.assumptions += [
